@@ -47,13 +47,13 @@ def mkstore(backend):
     return FileStore(ROOT), fs
 
 
-def populate(s, pres, tag=b"F", n=7):
+def populate(s, pres, tag=b"F", n=7, pfx=""):
     for k, p, d in zip(U, pres, ISDIR):
         if p:
             if d:
-                s.makedir(k)
+                s.makedir(pfx + k)
             else:
-                s.store(k, payload(k, tag), dict(tag=tag.decode() + k, n=n))
+                s.store(pfx + k, payload(k, tag), dict(tag=tag.decode() + k, n=n))
     return s
 
 
@@ -105,29 +105,41 @@ def md5hex(b):
     return hashlib.md5(b).hexdigest()
 
 
-def conforms(s, model, keys=U, check_md5=True):
-    """Does the store, seen through every observer, equal the reference model (dict key -> 'dir' | (bytes, tag, n))?"""
-    ok = sorted(s.keys()) == sorted(model)
-    for k in keys:
-        ok = ok and bool(s.contains(k)) == (k in model) and bool(s.is_dir(k)) == (model.get(k) == "dir")
-        if k in model and model[k] != "dir":
-            b, tag, n = model[k]
+def conforms(s, model, keys=U, check_md5=True, pfx="", extra=None):
+    """Does the store, seen through every observer, equal the reference model (dict key -> 'dir' | (bytes, tag, n))?
+    pfx: the universe lives under this key prefix in the store ('' or 'r/'); extra: further entries {full key: 'dir'}
+    that the configuration always shows (mount points)."""
+    extra = dict(extra or {})
+    full = {pfx + k: v for k, v in model.items()}
+    full.update(extra)
+
+    def parent(k):
+        return k.rsplit("/", 1)[0] if "/" in k else ""
+
+    ok = sorted(s.keys()) == sorted(full)
+    for k0 in keys:
+        k = pfx + k0
+        ok = ok and bool(s.contains(k)) == (k in full) and bool(s.is_dir(k)) == (full.get(k) == "dir")
+        if k in full and full[k] != "dir":
+            b, tag, n = full[k]
             md = s.get_metadata(k)
             ok = ok and s.get_bytes(k) == b and md["key"] == k and md.get("tag") == tag and md.get("n") == n
             fi = md["fileinfo"]
             ok = ok and fi["name"] == k.split("/")[-1] and not fi["is_dir"] and fi["size"] == len(b)
             if check_md5:
                 ok = ok and fi.get("md5") == md5hex(b)
-        elif k in model:
+        elif k in full:
             md = s.get_metadata(k)
             ok = ok and md["key"] == k and bool(md["fileinfo"]["is_dir"]) and md["fileinfo"]["name"] == k.split("/")[-1]
             ld = s.listdir(k)
-            ok = ok and ld is not None and sorted(ld) == sorted(x[len(k) + 1:] for x in model if PARENT.get(x) == k)
+            ok = ok and ld is not None and sorted(ld) == sorted(x[len(k) + 1:] for x in full if parent(x) == k)
         else:
             try:
                 s.get_bytes(k)
                 ok = False
             except Exception:
                 pass
-    ok = ok and sorted(s.listdir("")) == sorted(x for x in model if PARENT.get(x) == "")
+    for d in [""] + [x for x in extra]:
+        ld = s.listdir(d)
+        ok = ok and ld is not None and sorted(ld) == sorted(x[len(d) + 1 if d else 0:] for x in full if parent(x) == d)
     return ok
